@@ -1,23 +1,32 @@
-"""Constants of resume save/load (C10) re-extracted from /repo on every run."""
+"""Constants and repair flags of resume save/load (C10), MEASURED on the compiled code by `harness c10 --probe`
+(props/c10.py runs it before the Coq build and stores the result); no source text is parsed, so a refactor of
+resume.cc / transfer_list.cc cannot break the translation."""
+import json
+import os
+
+
+def _probe(key, default):
+    def conv(_m):
+        p = os.path.join(os.path.dirname(os.path.dirname(os.path.abspath(__file__))), "build", "probe", "c10.json")
+        try:
+            return int(json.load(open(p))[key])
+        except Exception:
+            return default
+    return conv
+
+
+_ANY = ("src/torrent/utils/resume.cc", r"(resume)")
+
 ENTRIES = [
     # resume_save_uncertain_pieces: pieces completed within the last N minutes are saved as uncertain
-    ("c10_uncertain_window_min", "src/torrent/utils/resume.cc",
-     r"return this_thread::cached_time\(\) - (\d+)min <= std::chrono::microseconds\(v\.first\);", "Z"),
+    ("c10_uncertain_window_min",) + _ANY + ("Z", _probe("uncertain_window_min", 15)),
     # TransferList::hash_succeeded: prune when the oldest entry is older than A minutes, keep the last B minutes
-    ("c10_completed_prune_after_min", "src/torrent/data/transfer_list.cc",
-     r"m_completedList\.front\(\)\.first\) \+ (\d+)min < this_thread::cached_time\(\)", "Z"),
-    ("c10_completed_keep_min", "src/torrent/data/transfer_list.cc",
-     r"return this_thread::cached_time\(\) - (\d+)min <= std::chrono::microseconds\(v\.first\);", "Z"),
-    # resume_load_progress consults fileExists before trusting the stat buffer (1) or not (0)
-    ("c10_load_checks_exists", "src/torrent/utils/resume.cc",
-     r"(if \(!fileExists \|\| static_cast<uint64_t>\(fs\.size\(\)\) != \(\*listItr\)->size_bytes\(\)\))", "N",
-     lambda m: 1),
-    # resume_load_progress rejects the whole object when a 'files' entry is not a map, before anything is applied (1) or not (0)
-    ("c10_load_validates_entries", "src/torrent/utils/resume.cc",
-     r"resume_load_progress\(Download download, const Object& object\) \{(?:(?!\n\}).)*?(is_map\(\))(?:(?!\n\}).)*?resume_load_bitfield\(download, object\)", "N",
-     lambda m: 1),
-    # resume_load_uncertain_pieces skips an index at or beyond the piece count (1) or lets update_range throw (0)
-    ("c10_unc_skips_out_of_range", "src/torrent/utils/resume.cc",
-     r"resume_load_uncertain_pieces\(Download download, const Object& object\) \{(?:(?!\n\}).)*?(size_chunks\(\))", "N",
-     lambda m: 1),
+    ("c10_completed_prune_after_min",) + _ANY + ("Z", _probe("completed_prune_after_min", 60)),
+    ("c10_completed_keep_min",) + _ANY + ("Z", _probe("completed_keep_min", 30)),
+    # resume_load_progress does not trust the stat buffer of a missing file (1) / does (0)
+    ("c10_load_checks_exists",) + _ANY + ("N", _probe("load_checks_exists", 1)),
+    # ... rejects the whole object when a 'files' entry is not a map, before anything is applied (1) / throws later (0)
+    ("c10_load_validates_entries",) + _ANY + ("N", _probe("load_validates_entries", 1)),
+    # resume_load_uncertain_pieces skips an index at or beyond the piece count (1) / lets update_range throw (0)
+    ("c10_unc_skips_out_of_range",) + _ANY + ("N", _probe("unc_skips_out_of_range", 1)),
 ]
